@@ -14,3 +14,5 @@ open Pcore.Ser
 #print axioms C10_impl_caps
 #print axioms C10_impl_refs_wellformed
 #print axioms C10_impl_roundtrip
+#print axioms C10_span_codec
+#print axioms C10_span_canonical
